@@ -23,6 +23,7 @@ CONSTANTS MaxBytes,    \* bytes the peer will write (numbered 1..MaxBytes)
           MaxCalls,    \* number of receive calls the reading task makes
           MaxCancels,
           Into,        \* TRUE: receive_data_into (caller's buffer registered with the protocol); FALSE: receive_data
+          Double,      \* TRUE: a transport may deliver two data callbacks in one iteration (proactor / fed-buffer transports)
           Fixed
 
 VARIABLES sent, kernel, internal, extbuf, ext, waiter, wres, tst, mustc, ready, ntodo,
@@ -50,10 +51,12 @@ CancelSoon == /\ ntodo = 0 /\ cancels < MaxCancels /\ tst \in {"await", "yield"}
               /\ UNCHANGED <<sent, kernel, internal, extbuf, ext, waiter, wres, tst, mustc, ntodo, delivered, lost, calls, outcomes>>
 
 \* start of an iteration. seen: the poll reports the socket readable; timer: a deadline fires in this iteration
-BeginIter(seen, timer) ==
+BeginIter(seen, timer, dbl) ==
   /\ ntodo = 0
+  /\ (dbl => Double /\ seen)
   /\ (timer => cancels < MaxCancels /\ tst \in {"await", "yield"})
-  /\ LET r1 == IF seen /\ kernel # <<>> THEN Append(ready, "read") ELSE ready
+  /\ LET r0 == IF seen /\ kernel # <<>> THEN Append(ready, "read") ELSE ready
+         r1 == IF dbl /\ kernel # <<>> THEN Append(r0, "read") ELSE r0
          r2 == IF timer THEN Append(r1, "cancel") ELSE r1 IN
      /\ ready' = r2 /\ ntodo' = Len(r2) /\ Len(r2) > 0
   /\ cancels' = IF timer THEN cancels + 1 ELSE cancels
@@ -128,7 +131,7 @@ RunCancel ==
      ELSE ready' = Tail(ready) /\ UNCHANGED <<mustc, waiter>>
   /\ UNCHANGED <<sent, kernel, internal, extbuf, ext, wres, tst, delivered, lost, calls, cancels, outcomes>>
 
-Next == (\E n \in 1..MaxBytes : PeerWrite(n)) \/ CancelSoon \/ (\E s, t \in BOOLEAN : BeginIter(s, t)) \/ RunRead \/ RunStep \/ RunCancel
+Next == (\E n \in 1..MaxBytes : PeerWrite(n)) \/ CancelSoon \/ (\E s, t, d \in BOOLEAN : BeginIter(s, t, d)) \/ RunRead \/ RunStep \/ RunCancel
 Spec == Init /\ [][Next]_vars
 
 -----------------------------------------------------------------------------
